@@ -205,6 +205,8 @@ type Event struct {
 	Entry  string
 	Ctxs   []*Ctx
 	ctxSet map[string]bool
+	// all entry calls from which the event was reached
+	Entries map[string]bool
 }
 
 type Violation struct {
@@ -247,6 +249,8 @@ type Component struct {
 	// OnExit checks component assertions at the end of an entry call.
 	OnExit func(a *tsRun, s *tsState, e *Entry)
 	InitPers map[string]int8
+	// BindParams gives abstract values (provenance tokens) to the parameters of an entry call.
+	BindParams func(s *tsState, fr *frame, e *Entry)
 	// OnDecision is told about every labelled branch decision.
 	OnDecision func(s *tsState, label string, outcome int8)
 	// EntryEnabled restricts the most general client (e.g. to a protocol-conforming one).
@@ -563,6 +567,8 @@ func (c *Component) fieldValString(i int, v val) string {
 			return "non-nil"
 		}
 		return "nil"
+	case kTok:
+		return "tok:" + v.tag
 	}
 	return "?"
 }
@@ -574,9 +580,10 @@ func (a *tsRun) record(s *tsState, kind string, role, field int, arg string, in 
 	}
 	ev := a.Events[id]
 	if ev == nil {
-		ev = &Event{Kind: kind, Role: role, Field: field, Arg: arg, Instr: in, Entry: a.curEntry.Name, ctxSet: map[string]bool{}}
+		ev = &Event{Kind: kind, Role: role, Field: field, Arg: arg, Instr: in, Entry: a.curEntry.Name, ctxSet: map[string]bool{}, Entries: map[string]bool{}}
 		a.Events[id] = ev
 	}
+	ev.Entries[a.curEntry.Name] = true
 	ck := s.ctxKey()
 	if ev.ctxSet[ck] {
 		return
@@ -678,6 +685,8 @@ func (a *tsRun) run(s *tsState) {
 					i := int(x.n)
 					if r, ok := c.SinkField[i]; ok {
 						f.regs[in] = val{k: kSink, n: int64(r)}
+					} else if tv, ok := s.fields[i]; ok && tv.k == kTok && c.Tracked[i] == tNone {
+						f.regs[in] = tv // a field remembering a provenance token
 					} else if c.Tracked[i] != tNone && c.Tracked[i] != tNilness {
 						f.regs[in] = s.fields[i]
 					} else if c.ObjField[i] {
@@ -733,6 +742,11 @@ func (a *tsRun) run(s *tsState) {
 					a.record(s, "store", -1, fi, a.storeArg(f, in), in)
 					if v.k == kRecv {
 						a.undecided(in, "receiver stored into its own field")
+					}
+					if v.k == kTok && v.tag != "" {
+						s.fields[fi] = v
+					} else if old, ok := s.fields[fi]; ok && old.k == kTok {
+						delete(s.fields, fi) // overwritten by something that is not a token
 					}
 				}
 			} else if _, ok := in.Addr.(*ssa.Alloc); ok {
@@ -1396,7 +1410,20 @@ func (a *tsRun) sinkEvent(s *tsState, f *frame, in *ssa.Call, role int, m string
 	if c.OnSinkEvent != nil {
 		c.OnSinkEvent(a, s, f, in, role, m)
 	}
-	a.record(s, "sink:"+m, role, -1, "", in)
+	var tags []string
+	for _, x := range in.Common().Args {
+		v := a.get(f, x)
+		if v.k == kTok && v.tag != "" {
+			tags = append(tags, v.tag)
+		} else {
+			tags = append(tags, "?")
+		}
+	}
+	argDescr := ""
+	if c.BindParams != nil {
+		argDescr = strings.Join(tags, ",")
+	}
+	a.record(s, "sink:"+m, role, -1, argDescr, in)
 	errAlts := []val{vnil(false)}
 	if c.Fault {
 		errAlts = append(errAlts, vnil(true))
@@ -1523,6 +1550,9 @@ func (a *tsRun) Explore(keepInit func(s *tsState) bool) {
 			} else {
 				fr := &frame{fn: ev.Fn, regs: map[ssa.Value]val{}, pred: -1}
 				fr.regs[ev.Fn.Params[0]] = val{k: kRecv}
+				if c.BindParams != nil {
+					c.BindParams(s, fr, ev)
+				}
 				s.stack = []*frame{fr}
 				a.run(s)
 			}
